@@ -398,6 +398,12 @@ class Engine:
 
         sysv = self.sim.v["sys"]
         f = self.sim.raw_function(sysv, op["fn"])
+        if any(lv["fn"] == op["fn"] for pid in self.order if self.probes[pid].obj is not None
+               for sel in self.probes[pid].spec["sels"] for lv in sel["levels"]):
+            # tooling a function while a probe is active on it is not part of any generated history
+            # (what it should mean is not stated anywhere); the minimiser can get here by dropping a
+            # deactivation, and must not
+            return "noop-probe-active"
         try:
             if op.get("how") == "inplace":
                 ptera.tooled.inplace(f)
@@ -1092,6 +1098,8 @@ class Engine:
             self.violate("C05.exit_clean", {"op": op, "error": res})
 
     def after_op(self, op, res):
+        if op["op"] == "exit":
+            self.check_name_errors()
         if self.sc.get("lifecycle", True):
             self.check_lifecycle(op)
         if self.sc.get("check_refs"):
@@ -1149,7 +1157,7 @@ class Engine:
                 if d["count"] not in (None, 0) or d["caps"]:
                     self.violate("C05.counters", {"fn": q, "after": op.get("op"), "state": d, "want": 0})
                     break
-            elif d["count"] != w:
+            elif d["count"] is not None and d["count"] != w:
                 self.violate("C05.counters", {"fn": q, "after": op.get("op"), "state": d, "want": w})
                 break
         exp = []
@@ -1175,7 +1183,19 @@ class Engine:
             if exp_g != got_g:
                 self.violate("C05.global_set", {"after": op.get("op"), "expected": len(exp_g), "got": len(got_g)})
 
+    def check_name_errors(self):
+        from . import harness
+
+        for e, c in harness.NAME_ERRORS:
+            now = canon(e)
+            if now != c:
+                self.violate("C16.name_error_info", {"when raised": c, "asked again later": now,
+                                                     "active": self.active_sig()})
+                harness.NAME_ERRORS.remove((e, c))
+                break
+
     def final_checks(self):
+        self.check_name_errors()
         for rec in self.probes.values():
             if rec.active:
                 continue
